@@ -1107,7 +1107,12 @@ int prog_len(int t)
 }
 Op prog_op(int t, int i)
 {
-    return g_prog[t][i];
+    const Op& o = g_prog[t][i];
+    if (g_trace && tl_self && tl_self->id != 0) {
+        const char* nm = (g_opnames && o.code >= 0 && o.code < g_nopnames) ? g_opnames[o.code] : "?";
+        tracef("        T%d: ---- program[%d][%d] = %s(%d,%d,%d)\n", tl_self->id, t, i, nm, o.a, o.b, o.c);
+    }
+    return o;
 }
 void op_names(const char* const* names, int n)
 {
